@@ -57,9 +57,9 @@ def queries(tier):
             for fl in [0, 1, 31, 32, 33, 64, (1 << 29) - 1, 1 << 29, (1 << 29) + 1, 1 << 40]:
                 qs.append(q(fam, 3, be, 9, outlen=33, fixlen=fl))
             # names: none, short, exactly 32 (zero padded), 33 and 40 (hashed); customisation L(8)
-            for nl in [0, 1, 4, 31, 32, 33, 40]:
+            for nl in ([0, 1, 4, 31, 32, 33, 40] if (tier == "thorough" or be == "c64") else [4, 32, 33]):
                 qs.append(q(fam, 4, be, 9, outlen=17, fixlen=17, namelen=nl, clen=3))
-            for cl in L(8):
+            for cl in (L(8) if (tier == "thorough" or be == "c64") else [7, 8]):
                 qs.append(q(fam, 4, be, 8, outlen=9, fixlen=0, namelen=4, clen=cl))
             qs.append(q(fam, 6, be, 3, outlen=9))
             qs.append(q(fam, 6, be, 3, outlen=9, namelen=4, clen=3))
